@@ -151,6 +151,27 @@ def medium_phase(tier):
     return gen
 
 
+def boundary_triples():
+    """Planted: a Player 1 (or Player 2) state over three lotteries: two whose winning chances are equal up to
+    1e-12 but sit on opposite sides of a 6-digit rounding boundary, and a third in the lower bucket.  Solved
+    in all six transition orders (as metamorphic pairs against the first order)."""
+    import itertools
+    for mid in (0.3000005, 0.6000015, 0.1234565):
+        for owner in (P1, P2):
+            pb, pc, pa = mid - 1e-12, mid + 1e-12, mid - 4e-7
+            base = [("a", 3), ("b", 4), ("c", 5)]
+            g = dict(rewards=[0, 0, 0, 2, 1000, 1], players=[owner, PR, PR, PR, PR, PR],
+                     transition_list=[base, [(1, 1)], [(1, 2)], [(pa, 1), (1 - pa, 2)], [(pb, 1), (1 - pb, 2)],
+                                      [(pc, 1), (1 - pc, 2)]], final_states=[1])
+            for perm in itertools.permutations(range(3)):
+                if perm == (0, 1, 2):
+                    continue
+                orders = [list(perm)] + [list(range(len(l))) for l in g["transition_list"][1:]]
+                t = dict(pi=list(range(6)), orders=orders, rho={}, forder=[0], which="order")
+                for prune in (True, False):
+                    yield dict(kind="game", game=g, t=t, prune=prune)
+
+
 def corridor_phase(tier):
     def gen():
         # index into games.corridor_games(): (d, ascending, owner) in generator order, 4 per d
@@ -162,7 +183,9 @@ def corridor_phase(tier):
 
 
 def phases(tier):
-    return [Phase("deep-corridors", enum=corridor_phase(tier),
+    return [Phase("rounding-boundary-triples", enum=boundary_triples,
+                  note="two values 1e-12 apart across a 6-digit rounding boundary plus a third in the lower bucket, all orders"),
+            Phase("deep-corridors", enum=corridor_phase(tier),
                   note="corridors of 200-1030 states: a renumbering changes how many sweeps a value needs to arrive"),
             Phase("medium-size-games", enum=medium_phase(tier), note="stopping games of 20-300 states, no oracle needed"),
             Phase("stopping-games", strategy=lambda: game_cases(10 if tier == "quick" else 12), examples=(900, 40000)),
